@@ -179,4 +179,17 @@ theorem C03_cex_regroup_across_rename :
       some [.changeField "Al" "a" none none [("null", "true")], .renameModel "Beta" "Al" "vapp_beta"] := by
   decide
 
+/-! ## instances evaluated by the kernel (tests of the transliterated optimiser, not unbounded claims) -/
+
+/-- of two `ChangeMeta` of one property in a batch the LAST one is what is left (each carries the complete value) -/
+example : (preprocess ["Alpha", "Beta"] [.changeMeta "Alpha" "indexes" (.sigs ["i1", "i2"]),
+      .changeMeta "Alpha" "indexes" (.sigs ["i1"])]).toOption.map (·.1)
+    = some [.changeMeta "Alpha" "indexes" (.sigs ["i1"])] := by decide
+
+/-- ... also across another mutation of the model -/
+example : (preprocess ["Alpha", "Beta"] [.changeMeta "Alpha" "unique_together" (.together [["a", "b"]]),
+      .addField "Alpha" "c" "IntegerField" none [], .changeMeta "Alpha" "unique_together" (.together [["a", "c"]])]).toOption.map (·.1)
+    = some [.addField "Alpha" "c" "IntegerField" none [], .changeMeta "Alpha" "unique_together" (.together [["a", "c"]])] := by
+  decide
+
 end DEvo.Props.C03
